@@ -172,6 +172,8 @@ def check_case(case, common, out):
         return
     replay = {"kind": "call", "module": "vf.props.C11", "func": "replay_case", "args": {"case": list(case)}}
     toks = set(case[3].split(":"))
+    if prog.undefined:
+        return
     if "idx" in toks and prog.index_free:
         return  # the result IS the labels that the program leaves undefined
     check_collection(q, cid, prog.order_free, out, replay, rng, index_free=prog.index_free, plan_dependent_layout=("sort" in prog.tags or bool(toks & {"repart2", "repart5"}) or "repartition" in case[3]))
